@@ -87,25 +87,42 @@ def _S(pairs):
                      index=pd.Index(np.array([l for l, _ in pairs], dtype="int64")))
 
 
-def build_real(node):
+_DECOY = [[0, 99.0], [1, 98.0]]
+
+
+def _prefit(est, kind):
+    """Hand the composite an estimator that has ALREADY been fitted on other data (decoy series,
+    decoy horizon): a composite must clone it, so nothing of this may show (fit events carry gen 0)."""
+    with _capture():
+        if kind == "F":
+            est.fit(_S(_DECOY), fh=[7])
+        elif kind == "T":
+            est.fit(_S(_DECOY))
+        else:
+            est.fit(np.array([[9.0]]), np.array([9.0]))
+    return est
+
+
+def build_real(node, root=True):
     import recorders_C09 as R
     from sktime.forecasting.compose import EnsembleForecaster, TransformedTargetForecaster, MultiplexForecaster, StackingForecaster
     from sktime.forecasting.online_learning._online_ensemble import OnlineEnsembleForecaster
     k = node[0]
     if k == "R":
-        return R.RecForecaster(node[1], float(node[2]), float(node[3]), float(node[4]), float(node[5]))
+        f = R.RecForecaster(node[1], float(node[2]), float(node[3]), float(node[4]), float(node[5]))
+        return f if root else _prefit(f, "F")
     if k == "E":
-        ms = [(n, build_real(ch)) for n, ch in node[2]]
+        ms = [(n, build_real(ch, False)) for n, ch in node[2]]
         if node[1] == "online":
             return OnlineEnsembleForecaster(ms)
         return EnsembleForecaster(ms, aggfunc=node[1])
     if k == "P":
         steps = [("s%d" % i, build_tr(t)) for i, t in enumerate(node[1])]
-        return TransformedTargetForecaster(steps + [("f", build_real(node[2]))])
+        return TransformedTargetForecaster(steps + [("f", build_real(node[2], False))])
     if k == "M":
-        return MultiplexForecaster([(n, build_real(ch)) for n, ch in node[2]], selected_forecaster=node[1])
+        return MultiplexForecaster([(n, build_real(ch, False)) for n, ch in node[2]], selected_forecaster=node[1])
     if k == "S":
-        return StackingForecaster([(n, build_real(ch)) for n, ch in node[1]], final_regressor=build_reg(node[2]))
+        return StackingForecaster([(n, build_real(ch, False)) for n, ch in node[1]], final_regressor=build_reg(node[2]))
     raise ValueError(k)
 
 
@@ -114,12 +131,18 @@ def build_tr(t):
     tag, k, m, upd, skip = t
     cls = {(False, False): R.RecTransformer, (True, False): R.RecTransformerU,
            (False, True): R.RecTransformerSkip, (True, True): R.RecTransformerSkipU}[(bool(upd), bool(skip))]
-    return cls(tag, float(k), float(m))
+    return _prefit(cls(tag, float(k), float(m)), "T")
 
 
 def build_reg(g):
     import recorders_C09 as R
-    return R.RecRegressor(g[0], float(g[1]), float(g[2]))
+    return _prefit(R.RecRegressor(g[0], float(g[1]), float(g[2])), "G")
+
+
+def fresh(node):
+    """an independently usable copy of a part: what `clone` gives (unfitted, same parameters)"""
+    from sklearn.base import clone
+    return clone(build_real(node, False))
 
 
 def _apply(obj, op):
@@ -157,6 +180,8 @@ def observe(obj, ops):
     with _capture():
         for j, op in enumerate(ops):
             n0 = len(R.LOG)
+            if isinstance(obj, R.RecForecaster):
+                obj._gen = 0     # a bare leaf driven directly stands for "a fresh clone at every fit"
             try:
                 o = _apply(obj, op)
             except Exception as e:
@@ -184,12 +209,13 @@ def _rows_str(rows):
 
 
 def _ev_str(e):
+    last = ("g%d" % e[5]) if e[2] == "fit" else _ob(e[5])     # fit events: generation of the fitted object
     if e[0] == "F":
-        return "F:%s:%s:%s:%s:%s" % (e[1], e[2], _ser_str(e[3]), _fh_str(e[4]), _ob(e[5]))
+        return "F:%s:%s:%s:%s:%s" % (e[1], e[2], _ser_str(e[3]), _fh_str(e[4]), last)
     if e[0] == "T":
-        return "T:%s:%s:%s:%s" % (e[1], e[2], _ser_str(e[3]), _ob(e[5]))
+        return "T:%s:%s:%s:%s" % (e[1], e[2], _ser_str(e[3]), last)
     ys = e[4]
-    return "G:%s:%s:%s:%s" % (e[1], e[2], _rows_str(e[3]), "none" if ys is None else ("-" if not ys else ",".join(show_rat(float(v)) for v in ys)))
+    return "G:%s:%s:%s:%s:%s" % (e[1], e[2], _rows_str(e[3]), "none" if ys is None else ("-" if not ys else ",".join(show_rat(float(v)) for v in ys)), last)
 
 
 def _num(x):
@@ -253,14 +279,16 @@ def _p_rats(s):
 
 def _p_event(s):
     p = s.split(":")
+    def last(x):
+        return int(x[1:]) if x.startswith("g") else (None if x == "-" else x == "T")
     if p[0] == "F":
         return ("F", p[1], p[2], _p_ser(p[3]), None if p[4] == "none" else ([] if p[4] == "-" else [int(x) for x in p[4].split(",")]),
-                None if p[5] == "-" else p[5] == "T")
+                last(p[5]))
     if p[0] == "T":
-        return ("T", p[1], p[2], _p_ser(p[3]), None, None if p[4] == "-" else p[4] == "T")
+        return ("T", p[1], p[2], _p_ser(p[3]), None, last(p[4]))
     if p[0] == "G":
         rows = [] if p[3] == "-" else [_p_rats(r) for r in p[3].split("_")]
-        return ("G", p[1], p[2], rows, None if p[4] == "none" else _p_rats(p[4]), None)
+        return ("G", p[1], p[2], rows, None if p[4] == "none" else _p_rats(p[4]), last(p[5]))
     raise ValueError(s)
 
 
@@ -301,6 +329,8 @@ def _ev_close(a, b):
         if not _rows_close(a[3], b[3]):
             return False
         if (a[4] is None) != (b[4] is None):
+            return False
+        if a[5] != b[5]:
             return False
         return a[4] is None or (len(a[4]) == len(b[4]) and all(_num_close(u, v) for u, v in zip(a[4], b[4])))
     return _ser_close(a[3], b[3]) and a[4] == b[4] and a[5] == b[5]
@@ -388,7 +418,7 @@ def _same_out(a, b):
 def _oracle_ens(node, ops, outs, logs):
     fails = []
     agg, members = node[1], node[2]
-    refs = [observe(build_real(ch), ops) for _, ch in members]
+    refs = [observe(fresh(ch), ops) for _, ch in members]
     n = len(outs)
     if any(len(r[0]) < n for r in refs):
         return [("EnsembleForecaster:member-fails-alone-where-ensemble-succeeds", "a member run on its own fails earlier than the ensemble")]
@@ -397,8 +427,12 @@ def _oracle_ens(node, ops, outs, logs):
             if ops[j][0] != "pred":
                 continue
             cols = [[v for _, v in r[0][j]] for r in refs]
-            exp = list(zip([l for l, _ in refs[0][0][j]], _np_agg(agg, cols)))
-            if not _ser_close(outs[j], exp):
+            labs = [[l for l, _ in r[0][j]] for r in refs]
+            if any(l != labs[0] for l in labs):
+                exp = None      # the independently run members do not even forecast the same labels
+            else:
+                exp = list(zip(labs[0], _np_agg(agg, cols)))
+            if exp is None or not _ser_close(outs[j], exp):
                 fails.append(("EnsembleForecaster.predict:not-%s-of-independently-fitted-members" % ("weighted-mean" if agg == "online" else agg),
                               "call %d: got %s, %s of members is %s" % (j, outs[j], agg, exp)))
                 break
@@ -417,7 +451,7 @@ def _oracle_mux(node, ops, outs, logs):
     chosen = [ch for nm, ch in members if nm == sel]
     if len(chosen) != 1:
         return []
-    r_out, r_log, r_err = observe(build_real(chosen[0]), ops)
+    r_out, r_log, r_err = observe(fresh(chosen[0]), ops)
     n = len(outs)
     if len(r_out) < n:
         return [("MultiplexForecaster:selected-member-fails-alone", "the selected member on its own fails earlier than the multiplexer")]
@@ -440,8 +474,9 @@ class _SpecPipeline:
         self.node = node
 
     def fit(self, y, fh=None):
-        self.ts = [build_tr(t) for t in self.node[1]]
-        self.f = build_real(self.node[2])
+        from sklearn.base import clone
+        self.ts = [clone(build_tr(t)) for t in self.node[1]]
+        self.f = fresh(self.node[2])
         z = y
         for t in self.ts:
             t.fit(z)
@@ -576,7 +611,7 @@ def _oracle_stack(node, ops, outs, logs):
                          "call %d: targets %s, held-out values %s" % (j, targets, [ydict.get(l) for l in window]))
                 # rows = forecasts of independently fitted members that saw only the data before the window
                 y_tr = [(l, v) for l, v in y if l <= c]
-                hold = [observe(build_real(ch), [["fit", y_tr, fh], ["pred", None]]) for _, ch in members]
+                hold = [observe(fresh(ch), [["fit", y_tr, fh], ["pred", None]]) for _, ch in members]
                 if all(len(h[0]) == 2 for h in hold):
                     exp_rows = [list(r) for r in zip(*[[v for _, v in h[0][1]] for h in hold])]
                     if not _rows_close(rows, exp_rows):
@@ -587,12 +622,13 @@ def _oracle_stack(node, ops, outs, logs):
                         fail("StackingForecaster.fit:members-not-fitted-independently-on-training-window",
                              "call %d: members handed %s, expected %s" % (j, pre, exp_pre))
             # members refitted on all data
-            ref = [build_real(ch) for _, ch in members]
+            ref = [fresh(ch) for _, ch in members]
             full = [observe(r, [["fit", y, fh]]) for r in ref]
             exp_post = [e for f in full for e in (f[1][0] if f[1] else [])]
             if not _log_close(post, exp_post):
                 fail("StackingForecaster.fit:members-not-refitted-on-all-data", "call %d: after the meta-regressor members were handed %s, expected %s" % (j, post, exp_post))
-            greg = build_reg(g)
+            from sklearn.base import clone
+            greg = clone(build_reg(g))
             with _capture():
                 try:
                     greg.fit(np.array([[float(v) for v in r] for r in rows], dtype="float64").reshape(len(rows), -1),
@@ -667,7 +703,15 @@ def oracle(c, real_out):
         if len(o2) != k:
             return []
         outs, logs = o2, l2
-    fails = list(_oracle_node(c["tree"], ops, outs, logs))
+    def safe(nd, ops_, o_, l_):
+        # the reference composition is built from real parts; if it cannot even be evaluated on an observation
+        # (ragged member forecasts, ...) the real composite did not behave like a composition of its parts
+        try:
+            return list(_oracle_node(nd, ops_, o_, l_))
+        except Exception as e:
+            return [("%s:observation-not-a-composition-of-the-parts" % {"E": "EnsembleForecaster", "P": "TransformedTargetForecaster",
+                     "M": "MultiplexForecaster", "S": "StackingForecaster"}.get(nd[0], "leaf"), "%s: %s" % (type(e).__name__, e))]
+    fails = safe(c["tree"], ops, outs, logs)
     # every composite inside the tree is itself a composite of its parts: check each on the same history
     todo = list(_children(c["tree"]))
     while todo:
@@ -676,7 +720,7 @@ def oracle(c, real_out):
             continue
         o2, l2 = _real_obs(nd, ops)
         if o2:
-            fails.extend(_oracle_node(nd, ops[:len(o2)], o2, l2))
+            fails.extend(safe(nd, ops[:len(o2)], o2, l2))
         todo.extend(_children(nd))
     out, seen = [], set()
     for k_, m in fails:
@@ -934,7 +978,7 @@ def gen_cases(tier, rng):
         off = rng.randrange(k)
         cases += small[off::k]
     cases += _malformed(rng)
-    nrand = 1500 if tier == "thorough" else 130
+    nrand = 5000 if tier == "thorough" else 450
     for i in range(nrand):
         tg = _Tagger()
         depth = rng.choice([1, 1, 2, 2, 2, 3, 3])
